@@ -48,6 +48,72 @@ def cases(rng, thorough):
     return cs
 
 
+def cbmc_builders(rep, thorough):
+    """CBMC on the REAL Can.c / CanBrief.c: for each payload length, for ALL payload contents, ALL
+    32-bit identifiers, both variants and ALL prior buffer contents, C06 as stated
+    (harness/cbmc/can_all_inputs.c), in both host byte orders.  Cached per content of the sources."""
+    import hashlib
+    import json
+    import os
+    import re
+    import subprocess
+    from concurrent.futures import ThreadPoolExecutor
+    R = common.REPO
+    harness = os.path.join(common.VERIF, "harness", "cbmc", "can_all_inputs.c")
+    lib = [os.path.join(R, "src", "avtp", "acf", "Can.c"), os.path.join(R, "src", "avtp", "acf", "CanBrief.c"), os.path.join(R, "src", "avtp", "Utils.c")]
+    hs = lib + [harness, os.path.join(R, "include", "avtp", "acf", "Can.h"), os.path.join(R, "include", "avtp", "acf", "CanBrief.h"),
+                os.path.join(R, "include", "avtp", "Byteorder.h"), os.path.join(R, "include", "avtp", "Defines.h")]
+    h = hashlib.sha256(b"".join(open(x, "rb").read() for x in hs)).hexdigest()[:16]
+    lengths = list(range(0, 65)) + ([65, 66, 67, 100, 255, 256, 1000] if thorough else [])
+    cache_path = os.path.join(common.BUILD, "cbmc_can_%s_%s.json" % (h, "t" if thorough else "q"))
+    if os.path.exists(cache_path):
+        results = json.load(open(cache_path))
+    else:
+        def one(job):
+            n, brief, endian = job
+            cmd = ["cbmc", "-DLEN=%d" % n, "-DBRIEF=%d" % brief, "-I", os.path.join(R, "include"), harness] + lib + \
+                  ["--unwind", str(max(200, n + 40)), "--unwinding-assertions", "--no-standard-checks", "--object-bits", "8", "--trace"]
+            if endian == "big":
+                cmd += ["--big-endian", "-D__BYTE_ORDER__=__ORDER_BIG_ENDIAN__"]
+            r = subprocess.run(cmd, capture_output=True, text=True, timeout=900)
+            out = r.stdout
+            if "VERIFICATION SUCCESSFUL" in out:
+                return [n, brief, endian, "ok", [], None]
+            failed = sorted(set(re.findall(r"\] line \d+ (C06: [^:]+): FAILURE", out)))
+            if not failed:
+                return [n, brief, endian, "tool-error", [], out[-600:] + r.stderr[-300:]]
+            def arr(name, size):
+                d = {}
+                for m in re.finditer(r"^\s*%s\[(\d+)l?\]=(\d+)" % name, out, re.M):
+                    d.setdefault(int(m.group(1)), int(m.group(2)))
+                return bytes(d.get(j, 0) for j in range(size))
+            H = 8 if brief else 16
+            total = 4 + H + n + (4 - n % 4) % 4 + 8
+            mid = re.search(r"^\s*id=(\d+)", out, re.M)
+            mvar = re.search(r"^\s*variant=(\d+)", out, re.M)
+            return [n, brief, endian, "fail", failed, {"buf_hex": arr("buf", total).hex(), "payload_hex": arr("payload", n).hex(),
+                                                      "id": int(mid.group(1)) if mid else 0, "variant": int(mvar.group(1)) if mvar else 0}]
+        jobs = [(n, b, e) for n in lengths for b in (0, 1) for e in ("little", "big")]
+        with ThreadPoolExecutor(max_workers=14) as ex:
+            results = list(ex.map(one, jobs))
+        json.dump(results, open(cache_path, "w"))
+    n_ok = 0
+    for n, brief, endian, verdict, failed, cex in results:
+        if verdict == "ok":
+            n_ok += 1
+            continue
+        if verdict == "tool-error":
+            raise common.ToolError("cbmc could not decide length %d brief=%d %s: %s" % (n, brief, endian, cex))
+        fmt = "CanBrief" if brief else "Can"
+        key = "%s:all-inputs:%s:len%%4=%d:%s" % (fmt, endian, n % 4, "0..64" if n <= 64 else "long")
+        ops = ["buf a " + (cex["buf_hex"] or "-"), "can_create a 4 %s %d %d %s" % (fmt, cex["id"], cex["variant"], cex["payload_hex"] or "-"), "dump a"]
+        rep.violation(key, {"kind": "real-code-violates-the-statement", "format": fmt, "payload_length": n, "host_byte_order": endian,
+                            "failed_assertions": failed, "ops": ops,
+                            "note": "counterexample from CBMC's trace on the real builder; the ops replay it natively (little-endian host)"})
+    rep.cov["cbmc_all_inputs"] = {"payload_lengths": len(lengths), "formats": 2, "byte_orders": 2, "verified": n_ok, "runs": len(results),
+                                  "statement": "for all payload contents, identifiers, variants and prior buffer contents: C06 (harness/cbmc/can_all_inputs.c)"}
+
+
 def check(rep, prop, tier, seed):
     rng = common.rng_for(prop, seed)
     thorough = tier == "thorough"
@@ -77,6 +143,7 @@ def check(rep, prop, tier, seed):
         rep.violation(key, {"kind": "builder-differs-from-model" if kind == "diff" else "sanitizer-abort", "case": t,
                             "ops": cs.cases[i], "observed_real_code": c_lines, "expected_by_model": l_lines, "stderr": err[-1200:]})
         diff_groups.setdefault(t["fmt"], []).append(i)
+    cbmc_builders(rep, thorough)
     pipeline.report_proof_failures(rep, prop, res, diff_groups)
     cells = {(t["fmt"], t["len"]) for t in cs.tags}
     rep.cov.update(evaluations=len(cs.cases), distinct_nontrivial=len(cells),
